@@ -161,6 +161,53 @@ def scanning_loop(ck):
              found=T.show(at)[:120], required=T.show(want_adv))
 
 
+def sequence_is_blurred_vectorisation(ck):
+    """C16.6: what the generator hands to the correlation is blur(vectorisePositions(positions, resolution, start, end), blurRadius)
+    - nothing cut off, padded or re-sized in between (a label in a trailing partial bin would lose its bit; the bin <-> base-pair
+    mapping assumes bit k covers [start + k*resolution, start + (k+1)*resolution))"""
+    ck.clause("C16.6", "the bit vector is exactly blur(vectorisePositions(positions, self.resolution, start, end), self.blurRadius)")
+    from ..rules.common import merged_return
+    ctx = ck.ctx
+    fn = ctx.p.find_method("SequenceGenerator", "positionsToSequence")
+    prm = [pp.name for pp in fn.call_params()]
+    n = 0
+    for pa in explore(ck, fn, unroll=(0, 1)):
+        if pa.outcome != "return":
+            continue
+        n += 1
+        v = pa.value
+        w = where(fn, pa.node)
+        if not (v[0] == "app" and v[1].endswith(":blur")):
+            raise AnalysisError(f"{w}: positionsToSequence does not return blur(...): {T.show(v)[:160]}")
+        a = dict(v[3])
+        inner = a.get("vector")
+        while inner is not None:
+            if inner[0] == "call" and inner[1] in ("list", "tuple") and len(inner[2]) == 1:
+                inner = inner[2][0]
+            elif inner[0] in ("list", "tuple") and len(inner[1]) == 1 and inner[1][0][0] == "star":
+                inner = inner[1][0][1]                      # [*xs]
+            elif inner[0] == "comp" and len(inner[3]) == 1 and inner[2][0] == "bv" and not inner[3][0][1]:
+                inner = inner[3][0][0]                      # [x for x in xs]
+            else:
+                break
+        if inner is not None and inner[0] == "app" and inner[1].endswith(":vectorisePositions"):
+            b = dict(inner[3])
+            ok = a.get("radius") == self_attr("blurRadius") and b.get("positions") == V(prm[0]) and \
+                b.get("resolution") == self_attr("resolution") and b.get("start", C(0)) == V("start") and b.get("end", T.NONE) == V("end")
+            ck.judge(ok, "C16.6", short(fn), w, "the bit vector is the blurred vectorisation of the positions over [start, end) at "
+                     "the generator's resolution and blur radius", found=T.show(v)[:200],
+                     required="blur(list(vectorisePositions(positions, self.resolution, start, end)), self.blurRadius)")
+        elif inner is not None and inner[0] in ("slice", "concat", "idx", "poly", "rep", "select") and any(
+                x[0] == "app" and x[1].endswith(":vectorisePositions") for x in T.subterms(inner)):
+            ck.violation("C16.6", short(fn), w, "the vector is cut, padded or re-sized between vectorisation and blur: a label in a "
+                         "trailing partial bin loses its bit, and bit k no longer covers [start + k*resolution, ...)",
+                         found=T.show(inner)[:200],
+                         required="blur(list(vectorisePositions(positions, self.resolution, start, end)), self.blurRadius)")
+        else:
+            raise AnalysisError(f"{w}: the vector handed to blur is not recognised: {T.show(inner)[:160] if inner else None}")
+    ck.floor("C16.6 return paths of positionsToSequence", n, 1)
+
+
 def run(ck):
     ctx = ck.ctx
     p = ctx.p
@@ -168,6 +215,11 @@ def run(ck):
     ck.clause("C16.2", "resolution / window start handed to peak creation belong to the correlation they describe")
     ck.clause("C16.3", "bin centre conversion formula")
     seeds(ck, "C16.1")
+    ck.clause("C16.5", "the seeds are the top peaks of *all* correlations of the query: both strands are correlated against every "
+                       "reference, neither is skipped because of what the other gave (as C11.7 / C05.8)")
+    from ..report import RuleView as _RV16
+    from . import c11 as _c11
+    _c11.run(_RV16(ck, {"C11.7": "C16.5"}))
     scanning_loop(ck)
     from .c11 import window_arguments
     window_arguments(ck, "C16.2")
@@ -361,3 +413,5 @@ def run(ck):
             dict(vec[0][3]).get("end") == V("end")
         ck.judge(bool(ok), "C16.2", short(sg), w, "a generator vectorises with its own resolution and blurs with its own radius",
                  found=T.show(v)[:200])
+    sequence_is_blurred_vectorisation(ck)
+
